@@ -1656,9 +1656,10 @@ def simp_test_signext_inf(expr_s, expr):
     if -(1 << (base.size - 1)) <= tmp < (1 << (base.size - 1)):
         # Can trunc integer
         return ExprOp(expr.op, base, expr_s(cst[:base.size]))
-    if (tmp >= (1 << (base.size - 1)) or
-        tmp < -(1 << (base.size - 1)) ):
+    if tmp >= (1 << (base.size - 1)):
         return ExprInt(1, 1)
+    if tmp < -(1 << (base.size - 1)):
+        return ExprInt(0, 1)
     return expr
 
 
